@@ -174,7 +174,7 @@ struct Incoming { int leaf; bool query; char tag; Val v; };   // tag: wire type 
 struct UndoEvent { std::string addr; Val oldv, newv; std::vector<char> raw; };
 
 struct Node {
-    App obj; std::vector<Val> model; std::string fail;   // fail: first clause violated ("" = none)
+    App obj; Rec rec; std::vector<Val> model; std::string fail;   // fail: first clause violated ("" = none)
     std::string fail_clause;
     std::vector<UndoEvent> undo_events;                   // events emitted by the last dispatch
     uint64_t dispatches = 0, sets = 0, queries = 0, clamped = 0, changed = 0, undo_seen = 0;
@@ -222,7 +222,7 @@ struct Node {
     // deliver one message (already encoded) to the port tree and compare with the model
     void deliver(const Leaf &l, int leaf_idx, const Incoming &in, const char *msg) {
         auto &L = leaves();
-        Rec d; d.obj = &obj; undo_events.clear();
+        Rec &d = rec; d.out.clear(); d.obj = &obj; d.matches = 0; undo_events.clear();   // one RtData for the node's lifetime, as applications do
         App::ports.dispatch(msg, d, true);
         dispatches++;
         if (in.query) queries++; else sets++;
